@@ -224,6 +224,13 @@ def replaySpinpol (s : St) : St × Option Err :=
 def postInit (s : St) : St × Option Err :=
   andThen (andThen (andThen (replayCore s) replayCharge) replayNelec) replaySpinpol
 
+/-- the (hidden, public) pairs replayed by `__attrs_post_init__`, in source order -/
+def postInitOrder : List (String × String) :=
+  [("_atcorenums", "atcorenums"), ("_charge", "charge"), ("_nelec", "nelec"), ("_spinpol", "spinpol")]
+
+/-- attrs fields of the model without validator and converter (assignment never raises) -/
+def plainFields : List String := ["_charge", "mo", "_nelec", "_spinpol"]
+
 /-- `IOData(**args)`: the new object, or the exception (then the caller keeps the old object) -/
 def construct (a : St) : Except Err St :=
   if validateAll a then
